@@ -49,7 +49,7 @@ import os
 from engine.ch import ok
 from engine import fakedb as F
 
-NSESS = int(os.environ.get('C36_NSESS', '3'))
+NSESS = 3
 FULL = os.environ.get('C36_FULL') == '1'             # thorough tier: both sessions before the fault are symbolic in single_fault_*
 NMAX = 120
 
